@@ -240,6 +240,17 @@ func (c *compiler) compileType(y *Type, parent Leafable, isUnion bool) error {
 		return errors.New("no type set on " + SchemaPath(parent))
 	}
 	if int(y.format) != 0 {
+		// the type object was compiled already for another copy of this leaf (a grouping used more than
+		// once): what a leaf inherits from its typedef still has to reach this copy
+		if !isUnion {
+			if _, builtinType := val.TypeAsFormat(y.ident); !builtinType {
+				tdef, err := c.findTypedef(y, parent, y.ident)
+				if err != nil {
+					return err
+				}
+				inheritFromTypedef(parent, tdef)
+			}
+		}
 		if _, isList := parent.(*LeafList); isList && !y.format.IsList() {
 			y.format = y.format.List()
 		}
@@ -258,14 +269,7 @@ func (c *compiler) compileType(y *Type, parent Leafable, isUnion bool) error {
 		tdef.dtype.mixin(y)
 
 		if !isUnion {
-			if !parent.HasDefault() {
-				if tdef.HasDefault() {
-					parent.setDefaultValue(tdef.DefaultValue())
-				}
-			}
-			if parent.Units() == "" {
-				parent.setUnits(tdef.Units())
-			}
+			inheritFromTypedef(parent, tdef)
 		}
 	}
 
@@ -347,6 +351,18 @@ func (c *compiler) compileType(y *Type, parent Leafable, isUnion bool) error {
 	}
 
 	return nil
+}
+
+// inheritFromTypedef: a leaf that states no default / no units takes them from its typedef.
+func inheritFromTypedef(parent Leafable, tdef *Typedef) {
+	if !parent.HasDefault() {
+		if tdef.HasDefault() {
+			parent.setDefaultValue(tdef.DefaultValue())
+		}
+	}
+	if parent.Units() == "" {
+		parent.setUnits(tdef.Units())
+	}
 }
 
 func (c *compiler) findTypedef(y *Type, parent Definition, qualifiedIdent string) (*Typedef, error) {
